@@ -299,6 +299,8 @@ def run_case(case):
             exp_cmd, exp_kwargs = decode_command_string(line.decode())
         except Exception:
             continue     # codec finding; keep framing clause independent
+        if not isinstance(exp_kwargs, dict):
+            continue     # ditto (key named json)
         if b"&bytes=" in line:
             marker_in_text = True
         if payload_hex is not None:
